@@ -17,8 +17,13 @@ EXPLANATION = (
     "zero on both sides; (R2) Market.cleared sums order.profit over the client's matched orders "
     "(client_orders(client, matched_only=True)) and charges commission max(profit x rate, 0), i.e. only on a "
     "net win; BaseOrder.profit routes simulated orders to the simulated profit; (R3) "
-    "Blotter.process_closed_market gives every order its own runner's result and the settlement terms. Not "
-    "decided (the bulk): the profit formulas themselves, dead-heat, each-way and line payout amounts."
+    "Blotter.process_closed_market gives every order its own runner's result and the settlement terms; (R4) "
+    "the settlement formulas: for each case of that finite domain the BACK return expression, normalised to a "
+    "polynomial in matched size S, average price P, dead-heat count N and each-way divisor D (inside the final "
+    "rounding), is identical to the exchange's rule - S(P-1) / -S / 0, the dead-heat split (S/N)(P-1) - S(N-1)/N, "
+    "the each-way terms S(P-1) + S(P-1)/D, S(P-1)/D - S, -2S, and even money on lines - and every term carries S "
+    "(nothing matched, nothing paid). Not decided: the numeric effect of rounding to 2 dp, and whether the "
+    "average price and matched size fed in are themselves right (C04/C05)."
 )
 ASSUMPTIONS = ["round(x, 2) is an odd function (Python rounds half to even symmetrically), so rounding does not affect antisymmetry"]
 
@@ -171,6 +176,101 @@ def run(ctx, rep):
     rep.check(not zero_bad, "R1", key(f, None, "removed runners, unsettled runners and missing line results pay zero"), f, None,
               "; ".join(zero_bad))
     rep.floor("R1", "antisymmetry cases", n_cases, 30)
+    # ------------------------------------------------------------------ R4 the formulas themselves
+    # For every case the BACK return expression (inside the final rounding) must equal the settlement rule of
+    # the exchange, as a polynomial identity in S = matched size, P = average matched price, N = number of
+    # dead-heat winners, D = each-way divisor (LAY is then its negative by R1).
+    from fractions import Fraction
+
+    def classify(p):
+        """rename the atoms of a polynomial to S / P / N / D by what they read; None if anything else occurs"""
+        out = {}
+        for mono, c in p.items():
+            m2 = []
+            for a, e in mono:
+                if "average_price_matched" in a:
+                    m2.append(("P", e))
+                elif "size_matched" in a:
+                    m2.append(("S", e))
+                elif "number_of_dead_heat_winners" in a:
+                    m2.append(("N", e))
+                elif "each_way_divisor" in a:
+                    m2.append(("D", e))
+                else:
+                    return None
+            # merge equal symbols
+            d2 = {}
+            for a, e in m2:
+                d2[a] = d2.get(a, 0) + e
+            k2 = tuple(sorted((a, e) for a, e in d2.items() if e))
+            out[k2] = out.get(k2, 0) + c
+        return {m: c for m, c in out.items() if c != 0}
+
+    def subst(p, sym, value):
+        out = {}
+        for mono, c in p.items():
+            c2, m2 = c, []
+            for a, e in mono:
+                if a == sym:
+                    c2 = c2 * Fraction(value) ** e
+                else:
+                    m2.append((a, e))
+            k2 = tuple(m2)
+            out[k2] = out.get(k2, 0) + c2
+        return {m: c for m, c in out.items() if c != 0}
+
+    def spec(txt):
+        envs = {k: {((k, 1),): Fraction(1)} for k in "SPND"}
+        return poly(ast.parse(txt, mode="eval").body, envs)
+
+    SPEC = {
+        ("ORD", "WINNER"): ("(S / N) * (P - 1) - S * (N - 1) / N",
+                            "1/N of the stake wins at the full price, the other (N-1)/N of it loses (N = 1: S x (P - 1))"),
+        ("ORD", "LOSER"): ("-S", "a losing back loses its matched stake"),
+        ("ORD", "REMOVED"): ("0", "bets on a removed runner are void"),
+        ("ORD", "ACTIVE"): ("0", "no result, nothing paid"),
+        ("EW", "WINNER"): ("S * (P - 1) + S * (P - 1) / D", "win part at the price plus place part at the place terms"),
+        ("EW", "PLACED"): ("S * (P - 1) / D - S", "place part wins at the place terms, win part loses"),
+        ("EW", "LOSER"): ("-2 * S", "both parts lose"),
+        ("EW", "REMOVED"): ("0", "void"),
+        ("EW", "ACTIVE"): ("0", "no result"),
+        ("LINE", ">"): ("S", "even money: the stake is won"),
+        ("LINE", "<"): ("-S", "the stake is lost"),
+        ("LINE", "="): ("0", "result on the line: stake returned"),
+        ("LINE", "none"): ("0", "no result available"),
+    }
+    n_formula = 0
+    for kind, status, ndh, rel, line_none in cases:
+        k2 = (kind, ("none" if line_none else rel)) if kind == "LINE" else (kind, status)
+        if k2 not in SPEC:
+            continue
+        n_formula += 1
+        rb = _paths(cfg, make_eval("BACK", kind, status, ndh, rel, line_none))
+        got = classify(rb[0][1])
+        want = spec(SPEC[k2][0])
+        if ndh in (1, 2):
+            want = subst(want, "N", ndh)
+            got = subst(got, "N", ndh) if got is not None else None
+        if kind == "EW":
+            # dead heats in each-way markets are not handled by the code (it logs an error): compared for N as it stands
+            want = spec(SPEC[k2][0])
+        label = "%s market, runner %s%s" % ({"EW": "each-way", "ORD": "ordinary", "LINE": "line"}[kind],
+                                           status if kind != "LINE" else "", (", dead-heat winners %s" % ("N>2" if ndh > 2 else ndh)) if kind == "ORD" and status == "WINNER" else (
+                                               (", struck line %s result" % ("missing" if line_none else rel)) if kind == "LINE" else ""))
+        kk = key(f, None, "BACK settlement formula: " + label)
+        if kk in seen_keys:
+            continue
+        seen_keys.add(kk)
+        rep.check(got is not None and got == want, "R4", kk, f, rb[0][0].ast,
+                  "returned %s, settlement rule %s (%s)" % (show(got) if got is not None else "an expression over other quantities: " + show(rb[0][1]),
+                                                            show(want), SPEC[k2][1]))
+        if got:
+            rep.check(all(any(a == "S" and e >= 1 for a, e in mono) for mono in got), "R4",
+                      key(f, None, "nothing matched, nothing paid: " + label), f, rb[0][0].ast,
+                      "every term carries the matched size")
+    rep.floor("R4", "settlement formula cases", n_formula, 12)
+    rep.note("settlement_formula_cases", n_formula)
+
     # profit depends on the fills only through the totals
     atoms = {utext(a) for a in walk_nodes(f.node.body, ast.Attribute)}
     rep.check("self.size_matched" in atoms and "self.average_price_matched" in atoms, "R1",
@@ -212,6 +312,27 @@ def run(ctx, rep):
 
 SIM = "flumine/simulation/simulatedorder.py"
 MUTANTS = [
+    dict(id="c08-winner-pays-price-not-odds", file=SIM, func="SimulatedOrder.profit",
+         old="                    profit = (self.size_matched / number_of_dead_heat_winners) * (\n                        self.average_price_matched - 1\n                    )",
+         new="                    profit = (self.size_matched / number_of_dead_heat_winners) * (\n                        self.average_price_matched\n                    )",
+         expect=["R4"], why="both sides still opposite, but the stake is paid twice"),
+    dict(id="c08-dead-heat-three-way-reduction", file=SIM, func="SimulatedOrder.profit",
+         old="                            self.size_matched\n                            * (number_of_dead_heat_winners - 1)\n                            / number_of_dead_heat_winners",
+         new="                            self.size_matched\n                            / number_of_dead_heat_winners",
+         expect=["R4"], why="three-way dead heat loses only 1/N of the stake"),
+    dict(id="c08-each-way-place-terms", file=SIM, func="SimulatedOrder.profit",
+         old="                (self.average_price_matched - 1) * (1 / divisor)", new="                (self.average_price_matched - 1) * divisor",
+         expect=["R4"], why="place part multiplied by the divisor"),
+    dict(id="c08-each-way-loser-one-stake", file=SIM, func="SimulatedOrder.profit",
+         old="                matched = round(self.size_matched * 2, 2)", new="                matched = round(self.size_matched, 2)",
+         expect=["R4"], why="only one of the two parts lost"),
+    dict(id="c08-line-win-at-price", file=SIM, func="SimulatedOrder.profit",
+         old="                    profit = self.size_matched * (2.0 - 1)", new="                    profit = self.size_matched * (price - 1)",
+         expect=["R4"], why="line markets settle at even money, the price is the line"),
+    dict(id="c08-loser-loses-liability", file=SIM, func="SimulatedOrder.profit",
+         old="                    if self.side == \"BACK\":\n                        return -self.size_matched\n                    else:\n                        return self.size_matched",
+         new="                    stake = self.size_matched * (self.average_price_matched - 1)\n                    if self.side == \"BACK\":\n                        return -stake\n                    else:\n                        return stake",
+         expect=["R4"], why="antisymmetric, wrong amount"),
     dict(id="c08-losing-back-positive", file=SIM, func="SimulatedOrder.profit",
          old="                    if self.side == \"BACK\":\n                        return -self.size_matched\n                    else:\n                        return self.size_matched",
          new="                    if self.side == \"BACK\":\n                        return self.size_matched\n                    else:\n                        return self.size_matched",
